@@ -56,9 +56,11 @@ def pIndex (s : String) : Option Index :=
   | 'm' :: r => (pBits r).map (fun bs => .mask bs .nd)
   | 'n' :: r => (pBits r).map (fun bs => .mask bs .strided)
   | 'b' :: r => (pBits r).map (fun bs => .mask bs .list)
-  | 'a' :: r => (parseInts (String.ofList r)).map (fun is => .arr is true)
-  | 'u' :: r => (parseInts (String.ofList r)).map (fun is => .arr is true)
-  | 'l' :: r => (parseInts (String.ofList r)).map (fun is => .arr is false)
+  | 'r' :: r => (pBits r).map (fun bs => .mask bs .readonly)
+  | 'w' :: r => (parseInts (String.ofList r)).map (fun is => .arr is .swapped)
+  | 'a' :: r => (parseInts (String.ofList r)).map (fun is => .arr is .nd)
+  | 'u' :: r => (parseInts (String.ofList r)).map (fun is => .arr is .nd)
+  | 'l' :: r => (parseInts (String.ofList r)).map (fun is => .arr is .list)
   | ['e'] => some .ellipsis
   | _ => none
 
